@@ -34,10 +34,10 @@ import (
 	"path/filepath"
 	"regexp"
 	"runtime"
-	"runtime/debug"
 	"sort"
 	"strings"
 	"sync"
+	"syscall"
 	"testing/fstest"
 	"time"
 	"unsafe"
@@ -128,6 +128,7 @@ type Out struct {
 	BadPC    string `json:",omitempty"`
 	Self     string `json:",omitempty"`
 	HeapMB   int
+	CPUms    int
 }
 
 func sha(b []byte) string { h := sha256.Sum256(b); return hex.EncodeToString(h[:12]) }
@@ -215,6 +216,8 @@ func resolve(pc uint64) SiteRec {
 	return rec
 }
 
+var lastCPU time.Duration
+
 func handleJob(raw json.RawMessage) interface{} {
 	var j Job
 	if err := json.Unmarshal(raw, &j); err != nil {
@@ -272,10 +275,12 @@ func handleJob(raw json.RawMessage) interface{} {
 	out.Overflow = int(verifCtl(opOverflow, 0, 0))
 	var ms runtime.MemStats
 	runtime.ReadMemStats(&ms)
-	out.HeapMB = int(ms.HeapAlloc >> 20)
-	// the collector is off while compiling (fewer address-dependent differences between runs);
-	// collect between jobs
-	runtime.GC()
+	out.HeapMB = int(ms.Sys >> 20)
+	var ru syscall.Rusage
+	syscall.Getrusage(syscall.RUSAGE_SELF, &ru)
+	cpu := time.Duration(ru.Utime.Nano() + ru.Stime.Nano())
+	out.CPUms = int((cpu - lastCPU) / time.Millisecond)
+	lastCPU = cpu
 	return out
 }
 
@@ -368,13 +373,36 @@ func excludedSite(fn string) bool {
 
 var numRe = regexp.MustCompile(`[0-9]+`)
 
+var strRe = regexp.MustCompile(`"[^"]*"?`)
+
 func normLine(s string) string {
 	s = strings.TrimSpace(s)
+	s = strRe.ReplaceAllString(s, `"..."`)
 	s = numRe.ReplaceAllString(s, "N")
-	if len(s) > 100 {
-		s = s[:100]
+	return clip(s, 80)
+}
+
+func clip(s string, n int) string {
+	s = strings.TrimSpace(s)
+	if len(s) > n {
+		s = s[:n] + "..."
 	}
 	return s
+}
+
+// firstDiffNonData is firstDiff ignoring data-segment lines (which differ first whenever the
+// layout of the data segment shifts and say little about the cause).
+func firstDiffNonData(a, b string) (int, string, string) {
+	keep := func(s string) string {
+		var out []string
+		for _, l := range strings.Split(s, "\n") {
+			if !strings.HasPrefix(strings.TrimSpace(l), "(data ") {
+				out = append(out, l)
+			}
+		}
+		return strings.Join(out, "\n")
+	}
+	return firstDiff(keep(a), keep(b))
 }
 
 // firstDiff returns the 1-based line number and the two lines at the first difference.
@@ -420,6 +448,7 @@ type explorer struct {
 	mu      sync.Mutex
 	mism    []mismatch
 	heapMax int
+	cpuMs   int64
 	horizon time.Duration
 }
 
@@ -463,6 +492,7 @@ func (e *explorer) runAll(k int, list []sched) {
 			}
 			e.mu.Lock()
 			e.heapMax = max(e.heapMax, o.HeapMB)
+			e.cpuMs += int64(o.CPUms)
 			e.mu.Unlock()
 			if o.D.same(e.base[s.Prog].D) {
 				return
@@ -498,9 +528,9 @@ func (e *explorer) describe(s sched) (string, []string) {
 		case s.K == 0:
 			keys = []string{"stock-randomness/" + s.Phase}
 		default:
-			keys = []string{fmt.Sprintf("hash-constant-%d", s.K)}
+			keys = []string{"hash-constant"}
 		}
-		locs = keys
+		locs = []string{fmt.Sprintf("%s (hash constant %d, all sites r=0)", keys[0], s.K)}
 	}
 	return strings.Join(keys, " + "), locs
 }
@@ -571,7 +601,7 @@ func (e *explorer) classify() {
 				}
 			}
 		}
-		b2, bst, _ := e.one(max(s.K, 1), e.job(sched{Prog: s.Prog, K: max(s.K, 1)}, false))
+		b2, bst, _ := e.one(1, e.job(sched{Prog: s.Prog, K: 1}, false))
 		replay := map[string]interface{}{
 			"program": corpus[s.Prog].Name, "hash_constant": s.K, "phase": s.Phase, "schedule": locs,
 			"reproduced": fmt.Sprintf("%d/%d", reproduced, reruns), "files": corpus[s.Prog].Files,
@@ -600,15 +630,21 @@ func (e *explorer) classify() {
 		case got.D.Wat != base.D.Wat:
 			n, x, y := firstDiff(base.FullWat, got.FullWat)
 			kind, line = "wat", normLine(x)
-			what = fmt.Sprintf("WAT differs first at line %d: baseline %q, deviated %q", n, strings.TrimSpace(x), strings.TrimSpace(y))
-			replay["wat_line"], replay["baseline_line"], replay["deviated_line"] = n, x, y
+			what = fmt.Sprintf("WAT differs first at line %d: baseline %q, deviated %q", n, clip(x, 160), clip(y, 160))
+			replay["wat_line"], replay["baseline_line"], replay["deviated_line"] = n, clip(x, 400), clip(y, 400)
+			if strings.HasPrefix(strings.TrimSpace(x), "(data ") {
+				if n2, x2, y2 := firstDiffNonData(base.FullWat, got.FullWat); n2 > 0 {
+					what += fmt.Sprintf("; first differing non-data line: baseline %q, deviated %q", clip(x2, 160), clip(y2, 160))
+					replay["baseline_nondata_line"], replay["deviated_nondata_line"] = clip(x2, 400), clip(y2, 400)
+				}
+			}
 		case got.D.Wasm != base.D.Wasm:
 			kind, line = "wasm", "same-wat"
 			what = "WAT identical but wasm bytes differ (watutil.Wat2Wasm)"
 		default:
 			n, x, y := firstDiff(strings.ReplaceAll(base.FullFset, ",", ",\n"), strings.ReplaceAll(got.FullFset, ",", ",\n"))
 			kind, line = "fset", normLine(x)
-			what = fmt.Sprintf("FileSet JSON differs at element %d: baseline %q, deviated %q", n, x, y)
+			what = fmt.Sprintf("FileSet JSON differs at element %d: baseline %q, deviated %q", n, clip(x, 160), clip(y, 160))
 		}
 		e.r.Report(name+"|"+kind+"|"+line, fmt.Sprintf("program %s, schedule [%s] (reproduced %d/%d): %s", corpus[s.Prog].Name, strings.Join(locs, "; "), reproduced, reruns, what), replay)
 		if len(s.Sites) == 1 {
@@ -625,7 +661,6 @@ var (
 
 func main() {
 	if mc.IsWorker() {
-		debug.SetGCPercent(-1)
 		mc.WorkerMain(handleJob)
 		return
 	}
@@ -645,8 +680,19 @@ func main() {
 	}
 	r.Assume("the compile path starts no goroutines, so Go map iteration start and hash seeds are its only schedule (statement's quantifier: every map-iteration / hash-seed schedule)")
 	r.Assume("explored orders are those the real go1.23 runtime can realise (rotations of the bucket walk: start bucket r&mask, in-bucket offset (r>>B)&7), not arbitrary permutations; for maps of <= 8 elements r in 1..7 is every realisable order")
-	r.Assume("hash of pointer-typed keys depends on heap addresses, which the control does not pin (workers run with GOMAXPROCS=1 and the collector off during a compile to keep them stable); any output difference is still a violation of the statement")
+	r.Assume("hash of pointer-typed keys depends on heap addresses, which the control does not pin (workers run with GOMAXPROCS=1 to keep them stable); any output difference is still a violation of the statement")
 
+	// developer knob (mutant runs on a loaded machine): restrict the corpus; the run is then marked capped
+	if only := os.Getenv("VERIF_C27_ONLY"); only != "" {
+		var keep []corpusProg
+		for _, p := range corpus {
+			if strings.Contains(","+only+",", ","+p.Name+",") {
+				keep = append(keep, p)
+			}
+		}
+		corpus = keep
+		r.Cap("VERIF_C27_ONLY=" + only)
+	}
 	e := &explorer{r: r, pools: map[int]*mc.Pool{}, horizon: 15 * time.Minute}
 	nw := mc.NWorkers()
 	for k := 1; k <= 3; k++ {
@@ -840,7 +886,7 @@ func main() {
 	r.Extra("distinct_static_sites", len(allSites))
 
 	// ---- bound 1 -----------------------------------------------------------------------------
-	nb1 := 0
+	nb1, pruned := 0, 0
 	for _, k := range ks {
 		var list []sched
 		// round-robin over programs so that every worker sees a mix
@@ -851,6 +897,13 @@ func main() {
 		for si := 0; si < maxS; si++ {
 			for i := 0; i < np; i++ {
 				if si >= len(e.sites[i]) {
+					continue
+				}
+				if !e.sites[i][si].capable() {
+					// never iterated a map of >= 2 elements: r cannot change the visit sequence
+					if k == ks[0] {
+						pruned++
+					}
 					continue
 				}
 				for _, rv := range rs {
@@ -866,6 +919,8 @@ func main() {
 		e.runAll(k, list)
 	}
 	r.Extra("bound1_schedules", nb1)
+	r.Extra("bound1_sites_pruned_single_element", pruned)
+	r.Assume("sites that only ever iterated maps of <= 1 element in the baseline are not deviated: the visit sequence of such a map does not depend on r (sound pruning)")
 
 	// ---- bound 2 (thorough) --------------------------------------------------------------------
 	if r.Thorough() {
@@ -894,7 +949,6 @@ func main() {
 		}
 		r.Extra("bound2_pairs", npairs)
 		r.Extra("bound2_schedules", len(list))
-		r.Assume("bound 2 prunes sites that never iterated a map of >= 2 elements in the baseline: their start cannot change any order (sound: the visit sequence of a 0/1-element map is independent of r)")
 		if r.Expired() {
 			r.Cap("deadline")
 		} else {
@@ -918,15 +972,15 @@ func main() {
 				r.HarnessError("stock worker runs in controlled mode %d", o.Mode)
 			}
 			stockOuts[rep][i] = o
-			bad := st != "ok" || !o.D.same(e.base[i].D)
-			if bad {
+			// every stock compile runs in a process other than the one that produced the baseline
+			if st != "ok" || !o.D.same(e.base[i].D) {
 				e.mu.Lock()
-				e.mism = append(e.mism, mismatch{S: sched{Prog: i, K: 0, Phase: fmt.Sprintf("process%d", rep)}, Status: st, Got: o.D, Stderr: res.Stderr})
+				e.mism = append(e.mism, mismatch{S: sched{Prog: i, K: 0, Phase: "cross-process"}, Status: st, Got: o.D, Stderr: res.Stderr})
 				e.mu.Unlock()
 			}
-			if st == "ok" && o.D2 != nil && !o.D2.same(e.base[i].D) {
+			if st == "ok" && o.D2 != nil && !o.D2.same(o.D) {
 				e.mu.Lock()
-				e.mism = append(e.mism, mismatch{S: sched{Prog: i, K: 0, Phase: fmt.Sprintf("process%d-second-compile", rep)}, Status: st, Got: *o.D2})
+				e.mism = append(e.mism, mismatch{S: sched{Prog: i, K: 0, Phase: "same-process"}, Status: st, Got: *o.D2})
 				e.mu.Unlock()
 			}
 		})
@@ -937,7 +991,8 @@ func main() {
 		}
 	}
 	r.Extra("stock_randomness_compiles", 4*np)
-	r.Extra("worker_heap_mb_max", e.heapMax)
+	r.Extra("worker_mem_sys_mb_max", e.heapMax)
+	r.Extra("bound_phases_worker_cpu_s", float64(e.cpuMs)/1000)
 
 	e.classify()
 	r.Sample(map[string]interface{}{"program": corpus[0].Name, "baseline": e.base[0].D, "sites": len(e.sites[0])})
